@@ -467,8 +467,9 @@ impl Literal {
                 let elem = elem.as_bits(checked, const_sizes);
                 let elem_size = elem.len();
                 let mut bits = vec![false; elem_size * size];
-                for i in 0..*size {
-                    bits[(i * elem_size)..(i * elem_size) + elem_size].copy_from_slice(&elem);
+                // nothing to copy for zero-sized elements (the repeat count can be huge then)
+                for chunk in bits.chunks_exact_mut(elem_size.max(1)) {
+                    chunk.copy_from_slice(&elem);
                 }
                 bits
             }
